@@ -176,7 +176,7 @@ package template
 //@   requires[C07] pieces(substring)
 
 //@ func DefaultReplacementAppliedFunc
-//@   except nilfunc#1, nilrecv#1, precondition#10, precondition#12, precondition#13, precondition#2, precondition#4, precondition#6, precondition#8 : undischarged on the reference tree (engine limit or missing callee contract), not claimed
+//@   except nilfunc#1, nilrecv#1, precondition#10, precondition#12, precondition#2, precondition#4, precondition#6, precondition#8 : undischarged on the reference tree (engine limit or missing callee contract), not claimed
 //@   nopanic[C01,C07]
 //@   requires cfg != nil
 //@   requires mapping != nil
